@@ -6,8 +6,9 @@ pub struct BehaviorSubject<'a, Item>
 where
   Item: Clone + Send + Sync,
 {
-  subject: Arc<subject::Subject<'a, Item>>,
-  last_item: Arc<RwLock<Option<Item>>>,
+  // every value carries its position in the sequence of pushes
+  subject: Arc<subject::Subject<'a, (usize, Item)>>,
+  last_item: Arc<RwLock<Option<(usize, Item)>>>,
   last_error: Arc<RwLock<Option<RxError>>>,
 }
 
@@ -18,14 +19,19 @@ where
   pub fn new(initial: Item) -> BehaviorSubject<'a, Item> {
     BehaviorSubject {
       subject: Arc::new(subjects::Subject::new()),
-      last_item: Arc::new(RwLock::new(Some(initial))),
+      last_item: Arc::new(RwLock::new(Some((0, initial)))),
       last_error: Arc::new(RwLock::new(None)),
     }
   }
 
   pub fn next(&self, item: Item) {
-    *self.last_item.write().unwrap() = Some(item.clone());
-    self.subject.next(item);
+    let n = {
+      let mut last_item = self.last_item.write().unwrap();
+      let n = last_item.as_ref().map_or(0, |x| x.0 + 1);
+      *last_item = Some((n, item.clone()));
+      n
+    };
+    self.subject.next((n, item));
   }
   pub fn error(&self, err: RxError) {
     *self.last_error.write().unwrap() = Some(err.clone());
@@ -41,21 +47,23 @@ where
     let subject = Arc::clone(&self.subject);
 
     Observable::create(move |s| {
-      {
-        let last_item = &*last_item.read().unwrap();
-        let last_error = &*last_error.read().unwrap();
+      // the latest value stays locked until the subscriber is registered with the live
+      // subject, so that no push falls between the hand-over and the registration; a
+      // push that was recorded before is recognized by its position and not repeated
+      let last_item = last_item.read().unwrap();
+      let last_error = last_error.read().unwrap();
 
-        if let Some(err) = last_error {
-          s.error(err.clone());
-          return;
-        }
-        if let Some(item) = last_item {
-          s.next(item.clone());
-        } else {
-          s.complete();
-          return;
-        }
+      if let Some(err) = &*last_error {
+        s.error(err.clone());
+        return;
       }
+      let handed = if let Some((n, item)) = &*last_item {
+        s.next(item.clone());
+        *n
+      } else {
+        s.complete();
+        return;
+      };
       if !s.is_subscribed() {
         // the subscriber left while it was handed the latest value
         return;
@@ -75,7 +83,11 @@ where
       let s_error = s.clone();
       let s_complete = s.clone();
       *sbsc.write().unwrap() = Some(subject.observable().subscribe(
-        move |x| s_next.next(x),
+        move |(n, x)| {
+          if n > handed {
+            s_next.next(x);
+          }
+        },
         move |e| s_error.error(e),
         move || {
           s_complete.complete();
